@@ -149,9 +149,9 @@ func DecimalFloatToBigInt(value compact_float.DFloat, maxBase10Exponent int) (*b
 // big.Int to other
 
 func BigIntToBigDecimalFloat(value *big.Int) apd.Decimal {
-	return apd.Decimal{
-		Coeff: *value,
-	}
+	// The sign belongs in Negative, and the coefficient must not share its
+	// storage with the caller's value.
+	return *apd.NewWithBigInt(value, 0)
 }
 
 func BigIntToInt(value *big.Int) (int64, error) {
@@ -208,15 +208,8 @@ func FloatToString(value float64) string {
 // int to other
 
 func IntToBigDecimalFloat(value int64) apd.Decimal {
-	if value < 0 {
-		return apd.Decimal{
-			Negative: true,
-			Coeff:    *big.NewInt(-value),
-		}
-	}
-	return apd.Decimal{
-		Coeff: *big.NewInt(value),
-	}
+	// Not -value: the smallest int64 has no positive counterpart
+	return *apd.NewWithBigInt(big.NewInt(value), 0)
 }
 
 func IntToUint(value int64) (uint64, error) {
